@@ -528,6 +528,10 @@ impl<E: FlowKeyExtractor> UdpManager<E> {
                 }
             }
         }
+        // The shell's one-shot timer was consumed by this call. If it fired
+        // early (timer wheels round to their tick) nothing was due and the
+        // deadline is unchanged: forget it so `reschedule` arms it again.
+        self.armed_deadline = None;
         self.reschedule();
 
         // Strict-advance guard: after firing every flow due at `now`, the next
